@@ -136,13 +136,11 @@ mod protected {
                 {
                     let mut arr = HeapBytes::default();
                     let mut idx: usize = 0;
-                    let size_hint = seq.size_hint().unwrap_or(1);
-                    arr.resize(size_hint, 0);
 
+                    // the size hint is only a hint (JSON has none): grow as
+                    // elements arrive and keep exactly what was read
                     while let Some(elem) = seq.next_element()? {
-                        if idx > arr.len() {
-                            arr.resize(idx, 0);
-                        }
+                        arr.resize(idx + 1, 0);
                         arr[idx] = elem;
                         idx += 1;
                     }
@@ -180,20 +178,19 @@ mod protected {
                 where
                     A: SeqAccess<'de>,
                 {
-                    let mut arr = HeapBytes::gen_locked().expect("couldn't create locked bytes");
+                    // collect into a wiping heap container, then move the
+                    // bytes into locked memory in one step
+                    let mut tmp = HeapBytes::default();
                     let mut idx: usize = 0;
-                    let size_hint = seq.size_hint().unwrap_or(1);
-                    arr.resize(size_hint, 0);
 
                     while let Some(elem) = seq.next_element()? {
-                        if idx > arr.len() {
-                            arr.resize(idx, 0);
-                        }
-                        arr[idx] = elem;
+                        tmp.resize(idx + 1, 0);
+                        tmp[idx] = elem;
                         idx += 1;
                     }
 
-                    Ok(arr)
+                    HeapBytes::from_slice_into_locked(tmp.as_slice())
+                        .map_err(|e| Error::custom(format!("{:?}", e)))
                 }
 
                 fn visit_bytes<E>(self, v: &[u8]) -> Result<Self::Value, E>
